@@ -1,5 +1,5 @@
 ------------------------------- MODULE Gen_C20 -------------------------------
 EXTENDS Robust, Json, CSV
-Emit == (muts # <<>> /\ Emitted) =>
-           CSVWrite("%1$s", <<ToJson([muts |-> muts, entry |-> entry, allow |-> allow, yaml |-> yaml])>>, "cases.ndjson")
+Emit == Emitted =>
+           CSVWrite("%1$s", <<ToJson([muts |-> muts, entry |-> entry, allow |-> allow, yaml |-> yaml, base |-> base])>>, "cases.ndjson")
 =============================================================================
